@@ -21,7 +21,7 @@ ASSUMPTIONS = ["error *classes* are compared (undefined / private / loop / not c
 
 
 def plan(tier):
-    return {"budget_s": 55 if tier == "quick" else 500, "profiles": ["R"], "min_evaluations": 3000}
+    return {"budget_s": 55 if tier == "quick" else 500, "profiles": ["R"], "min_evaluations": 1000}
 
 
 def gen_project(rng):
